@@ -72,6 +72,9 @@ func init() {
 		[]string{"the declared output of a read-only operation is not given storage reachable from the receiver", "no store to receiver-reachable or global memory", "no cursor-advancing or storage-writing call on a receiver-reachable object (fresh copies allowed)", "no package-level mutable scratch state"},
 		[]string{"value-level equality of repeated results", "data races as observed by the race detector"},
 		"the caller's io.ReaderAt honours its documented parallel-use contract")
+	Metas["C16"] = meta(lead+"Rule family X over ParsePKCS7 and the attribute parser / encoder pair, A.lossless, and the signature fact of C04.",
+		[]string{"elements PKCS#7 makes OPTIONAL ([0] content, [0] certificates, [0] signed attributes, NULL algorithm parameters) are not insisted on by any parser function ParsePKCS7 reaches (X1.optional)", "an AlgorithmIdentifier is accepted with NULL parameters as well as without (X1.params)", "a bare SignedData is accepted as well as one wrapped in a ContentInfo (X4.outer)", "a signed attribute of unknown type is neither refused nor dropped (X2.unknown)", "every field the attribute parser fills is emitted again by the attribute encoder, under the same attribute type and with the same ASN.1 primitive, and no field is filled from two different wire forms (X3.pair)", "nothing the parser consumes from the signed attributes is dropped: every structure cut out inside them is accounted for to its end and a single-valued field is not filled twice (A.lossless; found and led to the repair of parseAttributes)", "what is verified is the attribute encoder's output for the parsed attributes, by the caller's certificate (A.signature of C04)"},
+		[]string{"the bytes OpenSSL, sbsign or sbvarsign actually emit for any input and option", "that the re-encoding equals the signed bytes for a given blob", "DER canonicalisation of values inside attributes the parser keeps as raw bytes"})
 	// rules added with the third batch of seeded changes
 	recycle := "nothing handed back to a sync.Pool stays reachable from a result (P.recycle: aliases followed, copies end the trail)"
 	state := "the anchored functions keep nothing in package-level memory between calls (E.state)"
@@ -137,6 +140,14 @@ func init() {
 		"C19": {"no output in map iteration order (E.maporder)", "padding handed out is not shared memory that listing signatures writes (E.padshared)", "pooled state is reset on every path that used it (P.reset)"},
 	}
 	for k, v := range more5 {
+		more[k] = append(more[k], v...)
+	}
+	// sixth batch (DESIGN 10.9)
+	more6 := map[string][]string{
+		"C02": {"nothing the parser consumes from the signed attributes is dropped, and what it keeps is what the encoder emits (A.lossless, X3.pair; shared with C16)"},
+		"C04": {"nothing the parser consumes from the signed attributes is dropped: structures inside them are accounted for to the end, single-valued fields are not filled twice (A.lossless; found and led to the repair of parseAttributes)", "every field the attribute parser fills is emitted by the encoder under the same type and primitive, from one wire form (X3.pair)"},
+	}
+	for k, v := range more6 {
 		more[k] = append(more[k], v...)
 	}
 	for k, v := range more {
